@@ -249,7 +249,7 @@ pub fn prop() -> Prop {
         rule: "each case picks one case function of the other simulation-based checks (TCP worlds under faults, scripted TCP peers, datagram sockets, address-class table, IPv4 fragmentation, DHCP, DNS, neighbour discovery, poll_at scenarios, 6LoWPAN, frame fuzzing - whatever is built into this binary) and runs it with an independent strict validator attached to every simulated device: frame <= device MTU; IEEE 802.15.4 data frame header, 6LoWPAN dispatch / IPHC / NHC / FRAG1 / FRAGN decodable, fragment sizes and offsets consistent, reconstructed datagram validated as below; Ethernet source = own MAC and known ethertype; ARP fields; IPv4 version/IHL/total length = frame payload/header checksum/fragment offsets and flags; IPv6 payload length, extension chain and TLV padding; ICMP checksums, unused fields, error size limits; NDISC hop limit 255, reserved fields and option units; MLD hop limit 1, router alert and record lengths; IGMP TTL and checksum; UDP length and checksum (never 0 over IPv6); TCP data offset, option list, ports, checksum; DHCP cookie and end option; DNS question section; IP source = an interface address at emission time (unspecified only for DHCP client, NS/RS and MLD), never broadcast/multicast (raw-socket protocols 253/254 exempt); non-trivial = at least one frame validated; distinct by digest of (scenario, protocol chains, frame count)",
         assumptions: vec![
             "independent decoders in vkit::indep (no smoltcp::wire code)",
-            "own addresses are snapshotted at the start of each Node::poll; scenarios that poll the interface directly are validated without the source-ownership rule",
+            "source ownership is judged against every address the interface held at the start of any poll so far or holds when the emitting poll has ended (a socket the application bound keeps its source after SLAAC/DHCP removed the address; an address acquired during a poll may be used in that poll); scenarios that poll the interface directly are validated without the source-ownership rule",
             "802.15.4 frames are decoded with the independent 802.15.4 / RFC 4944 / RFC 6282 codec of vcheck/src/c20_lowpan.rs, fragments reassembled and the reconstructed IPv6 datagram validated like on the other media; frames compressed with a 6LoWPAN context are judged only when the scenario polls through Node::poll (contexts snapshotted), FRAGN frames without a FRAG1 on record are not judged",
             "the borrowed scenario's own verdict is ignored",
         ],
